@@ -204,9 +204,50 @@ fn term_row(term: &str, label: &str) -> Option<String> {
   term.lines().find_map(|l| l.find(&pat).filter(|i| *i == 0 || l[..*i].ends_with(' ')).map(|i| l[i + pat.len()..].trim().to_string()))
 }
 
+/// seconds since the epoch as `YYYY-MM-DD HH:MM:SS UTC`, for years 1970..=9999 (days-to-civil after Howard Hinnant)
+fn utc_text(ts: u64) -> Option<String> {
+  if ts > 253_402_300_799 {
+    return None;
+  }
+  let (days, rem) = ((ts / 86400) as i64, ts % 86400);
+  let z = days + 719_468;
+  let era = z.div_euclid(146_097);
+  let doe = z.rem_euclid(146_097);
+  let yoe = (doe - doe / 1460 + doe / 36524 - doe / 146_096) / 365;
+  let doy = doe - (365 * yoe + yoe / 4 - yoe / 100);
+  let mp = (5 * doy + 2) / 153;
+  let d = doy - (153 * mp + 2) / 5 + 1;
+  let m = if mp < 10 { mp + 3 } else { mp - 9 };
+  let y = yoe + era * 400 + if m <= 2 { 1 } else { 0 };
+  Some(format!("{y:04}-{m:02}-{d:02} {:02}:{:02}:{:02} UTC", rem / 3600, rem % 3600 / 60, rem % 60))
+}
+
 fn check_text(j: &Value, tab: &str, term: &str) -> Option<String> {
   let rows = parse_tab(tab);
   let get = |n: &str| rows.iter().find(|r| r.0 == n).map(|r| r.1.clone());
+  // the creation date is an instant: the text renderings show that instant (in UTC), not some other reading of the number
+  if let Some(ts) = j.get("creation_date").and_then(|v| v.as_u64()) {
+    let shown_tab = get("creation date").and_then(|v| v.first().cloned());
+    let shown_term = term_row(term, "Creation Date");
+    match utc_text(ts) {
+      Some(want) => {
+        if shown_tab.as_deref() != Some(want.as_str()) || shown_term.as_deref() != Some(want.as_str()) {
+          return Some(format!("creation date {ts} is {want}; the tab rendering shows {shown_tab:?}, the --terminal rendering {shown_term:?}"));
+        }
+      }
+      None => {
+        // beyond the year 9999: the raw number or a year of more than four digits, never a date between 1970 and 9999
+        for shown in [&shown_tab, &shown_term] {
+          if let Some(t) = shown {
+            let b = t.as_bytes();
+            if b.len() >= 5 && b[..4].iter().all(|c| c.is_ascii_digit()) && b[4] == b'-' {
+              return Some(format!("creation date {ts} lies beyond the year 9999; shown as {t:?}"));
+            }
+          }
+        }
+      }
+    }
+  }
   let scalars = [("name", "name"), ("comment", "comment"), ("created by", "created_by"), ("source", "source"), ("info hash", "info_hash"), ("tracker", "tracker"), ("update url", "update_url")];
   let all_clean = j.as_object()?.values().all(|v| match v { Value::String(s) => clean(s), Value::Array(a) => a.iter().all(|x| x.as_str().map(clean).unwrap_or(true) && x.as_array().map(|t| t.iter().all(|y| y.as_str().map(clean).unwrap_or(true))).unwrap_or(true)), _ => true });
   if !all_clean {
